@@ -115,7 +115,7 @@ type c32Model struct {
 	// delay sequence; if such a leftover drives the NEXT handshake the early attempt / give-up is reported under its
 	// own signature.
 	stale   []vtime.Duration // latest expiry of each leftover timer
-	tainted bool             // this handshake started while a leftover timer was (possibly) still in the wheel
+	tainted bool             // this handshake started after an earlier one left a timer in the wheel
 	// statistics (vacuity guards)
 	stats *c32Stats
 }
@@ -264,12 +264,12 @@ func (m *c32Model) step(e c32Ev, o c32Obs, replyGen int, firstMarker int) []c32P
 				// starts a new handshake
 				m.pending, m.counter, m.timer = true, 0, true
 				m.gen++
-				m.tainted = false
-				for _, hi := range m.stale {
-					if hi > m.now {
-						m.tainted = true
-						m.stats.TaintedStarts++
-					}
+				// Sticky: once a leftover timer existed, a later handshake may inherit it directly or through a chain
+				// (the leftover fires inside the slack window of handshake n, is taken for n's own timer, and n's real
+				// timer is then the leftover for handshake n+1).
+				m.tainted = len(m.stale) > 0
+				if m.tainted {
+					m.stats.TaintedStarts++
 				}
 				m.stats.TxThisGen = 0
 				m.lastTx = ""
